@@ -36,7 +36,7 @@ pub fn count(tier: Tier) -> u64 {
 pub fn run(check_id: &str, j: u64, rng: &mut Rng, tier: Tier) -> CaseOut {
     let (models, per) = plan(tier);
     let model = models[((j / per) as usize).min(models.len() - 1)];
-    let budget = if tier == Tier::Quick { 40 } else { 120 };
+    let budget = if tier == Tier::Quick { 20 } else { 120 };
     run_in_child(check_id, model, rng.next(), budget)
 }
 
